@@ -24,11 +24,11 @@ import (
 	bam "github.com/pokt-network/posmint/baseapp"
 	"github.com/pokt-network/posmint/codec"
 	"github.com/pokt-network/posmint/crypto"
+	storetypes "github.com/pokt-network/posmint/store/types"
 	sdk "github.com/pokt-network/posmint/types"
 	"github.com/pokt-network/posmint/types/module"
 	"github.com/pokt-network/posmint/x/auth"
 	authtypes "github.com/pokt-network/posmint/x/auth/types"
-	storetypes "github.com/pokt-network/posmint/store/types"
 	"github.com/pokt-network/posmint/x/gov"
 	govkeeper "github.com/pokt-network/posmint/x/gov/keeper"
 	govtypes "github.com/pokt-network/posmint/x/gov/types"
@@ -75,6 +75,7 @@ type Cfg struct {
 	KeySeed     int64   `json:"KeySeed"`
 	Pruning     string  `json:"Pruning"` // nothing|everything|syncable|kr,ke
 	DBDir       string  `json:"DBDir"`   // "" = MemDB, else goleveldb dir
+	MaxGas      int64   `json:"MaxGas"`  // consensus param Block.MaxGas given to InitChain (0 = no block gas limit)
 	ChainID     string  `json:"ChainID"`
 	Version     string  `json:"Version"`
 }
@@ -132,6 +133,7 @@ type App struct {
 type FakeRPC struct {
 	mu    sync.Mutex
 	known map[string]bool
+	codes map[string]uint32
 	asked map[string]bool
 	ln    net.Listener
 	srv   *http.Server
@@ -196,11 +198,25 @@ func (f *FakeRPC) handle(w http.ResponseWriter, r *http.Request) {
 		id = json.RawMessage(`"x"`)
 	}
 	if req.Method == "tx" && found {
-		fmt.Fprintf(w, `{"jsonrpc":"2.0","id":%s,"result":{"hash":"%s","height":"1","index":0,"tx_result":{},"tx":""}}`,
-			id, hex.EncodeToString(p.Hash))
+		f.mu.Lock()
+		code := f.codes[string(p.Hash)]
+		f.mu.Unlock()
+		fmt.Fprintf(w, `{"jsonrpc":"2.0","id":%s,"result":{"hash":"%s","height":"1","index":0,"tx_result":{"code":%d},"tx":""}}`,
+			id, hex.EncodeToString(p.Hash), code)
 		return
 	}
 	fmt.Fprintf(w, `{"jsonrpc":"2.0","id":%s,"error":{"code":-32603,"message":"Internal error","data":"tx not found"}}`, id)
+}
+
+// AddCode registers a transaction the index holds with a failed result code.
+func (f *FakeRPC) AddCode(hash []byte, code uint32) {
+	f.mu.Lock()
+	f.known[string(hash)] = true
+	if f.codes == nil {
+		f.codes = map[string]uint32{}
+	}
+	f.codes[string(hash)] = code
+	f.mu.Unlock()
 }
 
 func (f *FakeRPC) Add(hash []byte) {
@@ -313,9 +329,13 @@ func New(c Cfg, db dbm.DB, rpc *FakeRPC) (*App, error) {
 	postypes.PosFeeMap = map[string]int64{
 		"stake_validator": c.Fee, "begin_unstaking_validator": c.Fee, "unjail": c.Fee, "send": c.Fee,
 	}
-	if c.GovFee > 0 {
+	if c.GovFee != 0 { // negative = free
+		fee := c.GovFee
+		if fee < 0 {
+			fee = 0
+		}
 		for k := range govtypes.GovFeeMap {
-			govtypes.GovFeeMap[k] = c.GovFee
+			govtypes.GovFeeMap[k] = fee
 		}
 	}
 	a := &App{Cfg: c}
@@ -361,7 +381,9 @@ func New(c Cfg, db dbm.DB, rpc *FakeRPC) (*App, error) {
 	a.MM.RegisterRoutes(a.B.Router(), a.B.QueryRouter())
 	a.Keys = GenKeys(c.N, c.KeySeed)
 	a.B.SetInitChainer(a.initChainer)
-	a.B.SetBeginBlocker(func(ctx sdk.Ctx, req abci.RequestBeginBlock) abci.ResponseBeginBlock { return a.MM.BeginBlock(ctx, req) })
+	a.B.SetBeginBlocker(func(ctx sdk.Ctx, req abci.RequestBeginBlock) abci.ResponseBeginBlock {
+		return a.MM.BeginBlock(ctx, req)
+	})
 	a.B.SetEndBlocker(func(ctx sdk.Ctx, req abci.RequestEndBlock) abci.ResponseEndBlock { return a.MM.EndBlock(ctx, req) })
 	a.B.SetAnteHandler(auth.NewAnteHandler(a.AK))
 	if rpc == nil {
@@ -539,8 +561,11 @@ func (a *App) initChainer(ctx sdk.Ctx, req abci.RequestInitChain) abci.ResponseI
 func (a *App) InitChain() abci.ResponseInitChain {
 	bz, _ := json.Marshal(a.genesis())
 	a.Hdr = abci.Header{ChainID: a.Cfg.ChainID, Time: tickTime(0)}
-	return a.B.InitChain(abci.RequestInitChain{ChainId: a.Cfg.ChainID, Time: tickTime(0), AppStateBytes: bz,
-		ConsensusParams: &abci.ConsensusParams{Validator: &abci.ValidatorParams{PubKeyTypes: []string{tmtypes.ABCIPubKeyTypeEd25519}}}})
+	cp := &abci.ConsensusParams{Validator: &abci.ValidatorParams{PubKeyTypes: []string{tmtypes.ABCIPubKeyTypeEd25519}}}
+	if a.Cfg.MaxGas > 0 {
+		cp.Block = &abci.BlockParams{MaxBytes: 1 << 20, MaxGas: a.Cfg.MaxGas}
+	}
+	return a.B.InitChain(abci.RequestInitChain{ChainId: a.Cfg.ChainID, Time: tickTime(0), AppStateBytes: bz, ConsensusParams: cp})
 }
 
 // ---------------------------------------------------------------------------------------------
